@@ -140,18 +140,75 @@ def check_csleep(rep, tier, stats, samples):
             rep.inconc('csleep %s: %r' % (rid, e))
 
 
+CS_GLOBALS = 'unsigned char va, vb, vc;\nunsigned char arr[4];\nshort wa, count;\nshort warr[4];\nchar last;\nchar emit(short v) { last = v; return last; }\n'
+CS_STMTS = [('emit-postdec', 'emit(count--);'), ('warr-computed', 'warr[vb & 3] = wa;'), ('warr-X+1', 'warr[X + 1] = wa;'), ('add', 'va = vb + 1;'), ('x-ld', 'X = va;'), ('w-inc', 'wa++;'), ('if', 'if (va) vb = 1;'),
+            ('ax-ld', 'va = arr[X];'), ('ay-st', 'arr[Y] = va;'), ('call', 'vb = emit(wa);'), ('tern', 'va = vb ? 1 : 2;'), ('load', 'load(va);'), ('store', 'store(vb);'), ('postinc-use', 'va = arr[vb++];'),
+            ('w-postdec-idx', 'va = arr[count--];'), ('call-postinc', 'emit(wa++);'), ('cmp16', 'if (wa < count) vc = 1;')]
+
+
+def check_csleep_after(rep, tier, stats, samples):
+    """strobe; S; csleep(k); strobe  against  strobe; S; strobe  (and the csleep-first order): on every pair of paths that one initial state
+    can take through both programs (joint path condition satisfiable - solver), the cycles between the strobes differ by exactly k.
+    S ends (or starts) with stack traffic, flag tests, calls: the instructions a peephole rule could pair with those of the csleep."""
+    ks = (2, 3, 4, 5, 6, 7, 8, 9, 10) if tier == 'thorough' else (2, 3, 7, 10)
+    reqs, meta = [], {}
+    for (sn, st), order, lvl in itertools.product(CS_STMTS, ('after', 'before', 'twice'), ('-O0', '-O1', '-O2', '-O3')):
+        base = 'cs-rel/%s/%s@%s' % (sn, order, lvl)
+        mk = lambda body: HW_PRE + CS_GLOBALS + 'void main() { strobe(WSYNC); %s strobe(WSYNC); }\n' % body
+        reqs.append((base + '/ref', [lvl], mk(st)))
+        for k in ks:
+            if tier == 'quick' and k != 7 and not stable_pick(base + str(k), 100, 50): continue
+            cs = 'csleep(%d);' % k
+            src = mk({'after': st + ' ' + cs, 'before': cs + ' ' + st, 'twice': st + ' ' + cs + ' ' + cs}[order])
+            rid = '%s/k%d' % (base, k)
+            reqs.append((rid, [lvl], src)); meta[rid] = (base + '/ref', k * (2 if order == 'twice' else 1), src, lvl)
+    R = common.compile_many(reqs)
+    for rid, (ref, want, src, lvl) in sorted(meta.items()):
+        c, c0 = R[rid], R[ref]
+        stats['csrel_programs'] += 1
+        if c.status != 'ok' or c0.status != 'ok':
+            if c.status != c0.status: rep.violation('csrel-status:' + rid, 'statement accepted without the csleep and not with it (or the reverse): %s / %s' % (c0.status, c.status), dict(kind='csleep', source=src, args=[lvl], msg=c.msg))
+            continue
+        try:
+            S = Session()
+            v0, v1 = S.variant(c0, hw=set(HW_ADDRS)), S.variant(c, hw=set(HW_ADDRS))
+            o0, h0, _ = S.run(v0); o1, h1, _ = S.run(v1)
+            if h0 or h1: raise Unsupported('bound hit')
+            def span(st):
+                ws = [e for e in st.events if e[0] == 'W' and e[1] == 0x02]
+                return ws[-1][3] - ws[0][3] if len(ws) >= 2 else None
+            bad = None
+            for p0, p1 in itertools.product(o0, o1):
+                stats['csrel_queries'] += 1
+                mdl = S.check(list(p0.pcond) + list(p1.pcond))
+                if mdl is None: continue
+                stats['csrel_path_pairs'] += 1
+                d0, d1 = span(p0), span(p1)
+                if d0 is None or d1 is None or d1 - d0 != want: bad = (d0, d1); break
+            if bad:
+                rep.violation('csrel-cycles:' + rid, 'csleep total %d next to `%s` at %s adds %s cycles between the strobes' % (want, rid.split('/')[1], lvl, (bad[1] - bad[0]) if None not in bad else 'n/a'),
+                              dict(kind='csleep', source=src, args=[lvl], code=c.funcs['main']['lines'], ref_code=c0.funcs['main']['lines']))
+                continue
+            stats['csrel_decided'] += 1
+            if len(samples) < 5 and 'emit-postdec/after' in rid and lvl == '-O1':
+                samples.append(dict(program=src, level=lvl, verdict='every jointly feasible path pair: cycles between strobes = reference + %d' % want, code=c.funcs['main']['lines']))
+        except (Unsupported, AsmError, AssertionError) as e:
+            rep.inconc('csrel %s: %r' % (rid, e))
+
+
 def run(tier):
     rep = common.Report('C18', tier, 'translation_validation')
     common.build_driver()
     stats, samples = collections.Counter(), []
     check_csleep(rep, tier, stats, samples)
+    check_csleep_after(rep, tier, stats, samples)
     progs = list(g_hw(tier))
     variants = [('O0', ['-O0'], None), ('O1', ['-O1'], None), ('O2', ['-O2'], None), ('O3', ['-O3'], None)]
     st2, smp, results = runner.relational(rep, progs, variants, 'O0', opts=dict(events=True, hw=sorted(HW_ADDRS)))
-    rep.cov = dict(programs=st2['accepted'] + stats['csleep_decided'], disagreements_checked=st2['disagreements_checked'], samples=samples + smp[:4],
+    rep.cov = dict(programs=st2['accepted'] + stats['csleep_decided'] + stats['csrel_decided'], disagreements_checked=st2['disagreements_checked'], samples=samples + smp[:4],
                    csleep=dict(stats), hw_programs=st2['accepted'], variant_pairs=st2['variants'], identical_by_text=st2['identical_by_text'],
-                   decided_by_solver=st2['decided'], unsupported=st2['unsupported'], queries=st2['queries'] + stats['csleep_queries'], solver_s=round(st2['solver_s'], 1),
-                   bounds=dict(csleep='all 1-, 2- and selected 3-statement csleep sequences, arguments 0..12, in main and in an inline function, -O0..-O3',
+                   decided_by_solver=st2['decided'], unsupported=st2['unsupported'], queries=st2['queries'] + stats['csleep_queries'] + stats['csrel_queries'], solver_s=round(st2['solver_s'], 1),
+                   bounds=dict(csleep='all 1-, 2- and selected 3-statement csleep sequences, arguments 0..12, in main and in an inline function, -O0..-O3; relational: 17 statements before/after csleep(k) (k=2..10 thorough; 7 and a stable half of 2,3,10 quick) and before two of them, against the same program without the csleep, every jointly feasible path pair',
                                events='reads/writes of TIA addresses, NOP executions; compared as ordered (kind, address, value) sequences on every path'), stats=dict(st2))
     rep.assumptions = ['as C02', 'volatile events = accesses to the hardware addresses WSYNC/COLUBK/INPT4/DUMMY and NOP executions; hardware registers are not memory',
                        'N/Z flags are not register values in the sense of the property (csleep(7) uses PLA)', 'cycle table from the 6502 data sheet, zero-page DUMMY, no page crossing inside a csleep sequence']
